@@ -25,6 +25,7 @@
 import Proofs.Lemmas.SiftOuter
 import Proofs.Lemmas.SiftEnergy
 import Proofs.Lemmas.Compose
+import Proofs.C06
 
 namespace C01
 open Sift
@@ -361,5 +362,44 @@ example : sift (extractorIx (fun _ => extEnv sumInterp 2 false) (fun _ _ => 0)
 example : (extEnv sumInterp 0 false [0, 3, -1, 2, -2, 2, 1]).1 = none ∧
     Extrema.interpEnvelope sumInterp .upper 0 false [0, 3, -1, 2, -2, 2, 1] = .valueError :=
   pipeline_pad0_not_represented sumInterp false _ (by decide +kernel)
+
+/-! ### No unrequested energy stop: the option model (C06) under the sift model
+
+  The theorems above assume `o.energyThresh = none`.  Where does `o` come from?  From the arguments `get_next_imf`
+  is actually called with, which the option model (`EmdModel.Options`, C06) derives from what the CALLER supplied:
+  `sift(x)` without `imf_opts` substitutes its own fallback dictionary, `sift(x, imf_opts={…})` hands the dictionary
+  over, a `SiftConfig` spells every default out.  On every one of these routes a caller who supplies no
+  `energy_thresh` (or `None`) gets `energy_thresh = None` at every extraction (`C06.no_energy_thresh_unless_supplied`)
+  — a fallback dictionary that silently gains `'energy_thresh': 50` (seeded C01-7) contradicts this theorem. -/
+
+/-- **With no energy threshold supplied, no energy stop can fire and the decomposition is complete.**  Classic sift,
+    any delivery route, any user dictionaries (also none at all) whose IMF options hold no `energy_thresh`: for the
+    options `o` read from ANY `get_next_imf` call the run makes, whatever the envelopes `E` (length preserving), energy
+    oracle `D`, threshold, cap, input and fuel — a sift over that extraction that ends by the continue flag returns
+    components that sum to the input exactly, and the energy rule did not fire on its last extraction. -/
+theorem sift_no_unrequested_energy_stop (r : Options.Route) (u : Options.User) (hu : Options.WF u)
+    (cs : List Options.StageCall) (hemit : Options.emit false r .sift u = .ok cs)
+    (hno : ((Options.optA u.imf).lookup "energy_thresh".toList).getD Options.none' = Options.none')
+    (c : Options.StageCall) (hc : c ∈ cs) (hs : c.stage = .gni) (o : ImfOpts) (ho : Options.imfOptsOf c.args = .ok o)
+    (E : Nat → Sig → Env) (hE : EnvLen E) (D : Sig → Sig → Rat) (thr : Rat) (cap : Option Nat) (x : Sig) (fuel : Nat)
+    (cols : List Sig) (cp th : Bool) (h : sift (extractorIx E D o) thr cap x fuel = (cols, .done true cp th)) :
+    o.energyThresh = none ∧ Sig.vsum x.length cols = x ∧ ¬ LastEnergyFires D o x cols := by
+  have he : o.energyThresh = none :=
+    C06.no_energy_thresh_unless_supplied r .sift u hu cs hemit hno c hc hs o ho
+  exact ⟨he, sift_getNextImf_complete E hE D o he thr cap x fuel cols cp th h, lastEnergyFires_of_none D o he x cols⟩
+
+-- non-vacuity: `sift(x)` with no option dictionary at all makes one chain of stage calls; the options read from its
+-- `get_next_imf` call exist, hold the default rule and no energy threshold
+def noOptsUser : Options.User := { top := .nil, imf := none, env := none, ext := none }
+example : ∃ cs, Options.emit false .direct .sift noOptsUser = .ok cs ∧
+    (cs.filter (·.stage = .gni)).map (fun c => (Options.imfOptsOf c.args).toOption.map (fun o => (o.stop, o.energyThresh))) =
+      [some (.sd (3602879701896397 / 36028797018963968), none)] := ⟨_, rfl, by decide +kernel⟩
+example : Options.WF noOptsUser :=
+  ⟨⟨rfl, rfl, rfl⟩, by simp [noOptsUser, Config.Assoc.keys], by simp [noOptsUser, Options.optA, Config.Assoc.keys],
+   by simp [noOptsUser, Options.optA, Config.Assoc.keys], by simp [noOptsUser, Options.optA, Config.Assoc.keys],
+   by simp [Config.NodupKeys, noOptsUser, Options.optA, Config.Assoc.keys],
+   by simp [Config.NodupKeys, noOptsUser, Options.optA, Config.Assoc.keys],
+   by simp [Config.NodupKeys, noOptsUser, Options.optA, Config.Assoc.keys]⟩
+example : ((Options.optA noOptsUser.imf).lookup "energy_thresh".toList).getD Options.none' = Options.none' := rfl
 
 end C01
